@@ -2,7 +2,9 @@ package webrtc
 
 import (
 	"bytes"
+	"encoding/binary"
 	"fmt"
+	"strings"
 	"sync"
 	"sync/atomic"
 	"time"
@@ -15,22 +17,80 @@ import (
 )
 
 // Lossy part of C23: the same "arrives intact" oracle when packets are lost and come back as retransmissions
-// (NACK + RTX negotiated, default interceptors). Pairs run over an in-process network (vnet) that drops runs of
-// neighbouring media packets, so that several retransmissions are in flight at once.
+// (NACK + RTX negotiated, default interceptors). Pairs run over an in-process network (vnet) that drops the first
+// transmission of chosen media packets, so that they can only arrive through the repair stream.
+//
+// One case = one configuration, a pure function of (VERIF_SEED, case index):
+//   1-2 video tracks in one bundle (codec ∈ {VP8, VP9, H264, AV1}, all of them with RTX on the default engine)
+//   × sender = offerer | answerer
+//   × header shape class of the written packets per track (c23_hdr_test.go: plain | RFC 8285 one-byte / two-byte
+//     extension block with negotiated and free-form elements | RFC 3550 block | CSRC list | both | mixed per packet)
+//   × sender chain with / without the transport-wide-cc header-extension interceptor (the library then adds an
+//     extension block to packets that were written without one)
+//   × loss pattern: runs of 2-3 neighbours every 6-12 packets | single packets every 4-9 | independent 4-12 % |
+//     random runs of 1-4 (several retransmissions in flight at once in the run patterns)
+//   × first sequence number anywhere in 0..65535 (sometimes wrapping during the run)
+//   × payloads of 1-1000 random bytes tagged (track, n).
+//
+// Oracle: the SSRC and the payload types are read from the descriptions exactly as in the loopback part (c23Expect).
+// Every packet read from a TrackRemote - direct or retransmitted - must be one of the packets written to the track
+// that announced that SSRC: announced SSRC, a payload type the answer maps to the codec, and the (sequence number,
+// payload) pair of a written packet. Which written packet it is follows from the sequence number; when the payload
+// under that number is not the written one, the tag inside the payload tells whether an intact written packet came
+// back under another sequence number, on another track, or whether the bytes match nothing that was written.
+// Packets that never arrive are counted, not judged (the repair machinery gives no delivery guarantee).
 
-func c23Payload(track int, seq uint16) []byte {
-	out := make([]byte, 24+(int(seq)*37+track*11)%300)
-	x := uint32(seq)*2654435761 + uint32(track)*40503 + 12345
-	for i := range out {
-		x = x*1664525 + 1013904223
-		out[i] = byte(x >> 24)
+var c23LossNames = []string{"runs-2-3", "periodic-single", "independent", "random-runs"} //nolint:gochecknoglobals
+
+// c23DrawLoss returns the loss pattern of one track: drop[n] = the first transmission of packet n is lost.
+func c23DrawLoss(r *kit.Rand, total int) (string, []bool) {
+	drop := make([]bool, total)
+	lo, hi := 30, total-10 // the stream is established first; the tail is not dropped (a NACK needs a later packet)
+	kind := 0
+	switch x := r.Intn(100); {
+	case x < 40:
+		kind = 0
+	case x < 55:
+		kind = 1
+	case x < 75:
+		kind = 2
+	default:
+		kind = 3
 	}
-	out[0], out[1], out[2] = byte(track), byte(seq>>8), byte(seq)
+	desc := c23LossNames[kind]
+	switch kind {
+	case 0:
+		period, run := r.Range(6, 12), r.Range(2, 3)
+		for n := lo; n < hi; n++ {
+			drop[n] = n%period >= period-run
+		}
+		desc += fmt.Sprintf("(%d of %d)", run, period)
+	case 1:
+		period := r.Range(4, 9)
+		off := r.Intn(period)
+		for n := lo; n < hi; n++ {
+			drop[n] = n%period == off
+		}
+		desc += fmt.Sprintf("(1 of %d)", period)
+	case 2:
+		p := float64(r.Range(4, 12)) / 100
+		for n := lo; n < hi; n++ {
+			drop[n] = r.Chance(p)
+		}
+		desc += fmt.Sprintf("(%.0f%%)", p*100)
+	case 3:
+		for n := lo + r.Range(0, 10); n < hi; n += r.Range(5, 25) {
+			for k := r.Range(1, 4); k > 0 && n < hi; k-- {
+				drop[n] = true
+				n++
+			}
+		}
+	}
 
-	return out
+	return desc, drop
 }
 
-func c23LossyPC(nw *vnet.Net) (*PeerConnection, error) {
+func c23LossyPC(nw *vnet.Net, twccHdr bool) (*PeerConnection, error) {
 	se := SettingEngine{}
 	se.SetNet(nw)
 	se.SetNetworkTypes([]NetworkType{NetworkTypeUDP4})
@@ -41,22 +101,106 @@ func c23LossyPC(nw *vnet.Net) (*PeerConnection, error) {
 		return nil, err
 	}
 	ir := &interceptor.Registry{}
-	if err := RegisterDefaultInterceptors(me, ir); err != nil {
+	if err := RegisterDefaultInterceptorsWithOptions(me, ir, WithInterceptorLoggerFactory(se.LoggerFactory)); err != nil {
 		return nil, err
+	}
+	if twccHdr {
+		if err := ConfigureTWCCHeaderExtensionSender(me, ir); err != nil {
+			return nil, err
+		}
 	}
 
 	return NewAPI(WithSettingEngine(se), WithMediaEngine(me), WithInterceptorRegistry(ir)).
 		NewPeerConnection(Configuration{Certificates: []Certificate{rigCert()}})
 }
 
+type c23LossPkt struct {
+	p   *rtp.Packet
+	rtx bool
+}
+
+type c23LossRemote struct {
+	ssrc   uint32
+	stream string
+	id     string
+	mu     sync.Mutex
+	pkts   []c23LossPkt
+}
+
+// c23LossTrack is a c23Track plus what only the lossy part knows about it.
+type c23LossTrack struct {
+	*c23Track
+	loss      string
+	drop      []bool
+	classes   []string // header class each packet was written with
+	profiles  []string
+	dropped   []atomic.Bool // the network really dropped the first transmission of packet n
+	delivered []int
+	viaRTX    []int
+}
+
 // c23Lossy runs n lossy pairs; case indices start at base.
-func c23Lossy(run *kit.Run, base, n int) { //nolint:gocognit,cyclop
+func c23Lossy(run *kit.Run, base, n int) { //nolint:gocognit,cyclop,gocyclo,maintidx
+	const total = 400
+	run.Set("lossy_packets_per_track", total)
 	run.Parallel(n, 4, func(k int) {
 		i := base + k
 		if !run.Want(i) {
 			return
 		}
 		r := run.CaseRand(i)
+
+		// ---- the configuration, drawn before anything runs
+		ntracks := 1
+		if r.Chance(0.3) {
+			ntracks = 2
+		}
+		senderSide := r.Intn(2)
+		twccHdr := r.Chance(0.35)
+		var tracks []*c23LossTrack
+		var layout []string
+		for idx := 0; idx < ntracks; idx++ {
+			t := &c23LossTrack{c23Track: &c23Track{idx: idx, side: senderSide, codec: c23Codecs[r.Range(1, 4)], bare: r.Bool()}}
+			t.streamID, t.id = c23ID(r, "ls"), c23ID(r, fmt.Sprintf("lt%d", idx))
+			t.shape = c23DrawShape(r)
+			t.seq0 = uint16(r.Intn(65536))
+			if r.Chance(0.25) {
+				t.seq0 = uint16(65536 - r.Range(1, total-1)) // wraps during the run
+			}
+			t.loss, t.drop = c23DrawLoss(r, total)
+			for s := 0; s < total; s++ {
+				size := r.Range(3, 1000)
+				if r.Chance(0.1) {
+					size = r.Range(1, 8)
+				}
+				payload := r.Bytes(size)
+				payload[0] = byte(idx)
+				if size >= 3 {
+					binary.BigEndian.PutUint16(payload[1:3], uint16(s))
+				}
+				t.written = append(t.written, payload)
+			}
+			t.classes, t.profiles = make([]string, total), make([]string, total)
+			t.dropped = make([]atomic.Bool, total)
+			t.delivered, t.viaRTX = make([]int, total), make([]int, total)
+			capab := RTPCodecCapability{MimeType: t.codec.mime}
+			if !t.bare {
+				capab.ClockRate = t.codec.clock
+			}
+			local, err := NewTrackLocalStaticRTP(capab, t.id, t.streamID)
+			if err != nil {
+				run.Inconclusive("lossy:track-setup")
+
+				return
+			}
+			t.local = local
+			tracks = append(tracks, t)
+			layout = append(layout, fmt.Sprintf("#%d %s hdr=%s loss=%s first=%d", idx, t.codec.name, c23ShapeNames[t.shape], t.loss, t.seq0))
+		}
+		desc := fmt.Sprintf("lossy pair: sender=%s twccHeaderExtensionSender=%v tracks=[%s]",
+			[]string{"offerer", "answerer"}[senderSide], twccHdr, strings.Join(layout, "; "))
+
+		// ---- network and peers
 		rigVnetMu.Lock()
 		router, err := vnet.NewRouter(&vnet.RouterConfig{CIDR: "10.23.0.0/24", LoggerFactory: rigNullLoggerFactory{}})
 		if err != nil {
@@ -85,66 +229,87 @@ func c23Lossy(run *kit.Run, base, n int) { //nolint:gocognit,cyclop
 			return
 		}
 		defer func() { _ = router.Stop() }()
-		a, errA := c23LossyPC(nets[0])
-		b, errB := c23LossyPC(nets[1])
+		a, errA := c23LossyPC(nets[0], twccHdr)
+		b, errB := c23LossyPC(nets[1], twccHdr)
 		if errA != nil || errB != nil {
+			rigClose(a, b)
 			run.Inconclusive("lossy:pc")
 
 			return
 		}
-		defer rigClose(a, b)
-		track, err := NewTrackLocalStaticRTP(RTPCodecCapability{MimeType: MimeTypeVP8}, "video", "lossy")
-		if err != nil {
-			panic(err)
+		pcs := []*PeerConnection{a, b}
+		var (
+			remMu   sync.Mutex
+			remotes []*c23LossRemote
+			readers sync.WaitGroup
+			rtxSeen atomic.Int32
+			nRead   atomic.Int32
+		)
+		closed := false
+		closeAll := func() {
+			if closed {
+				return
+			}
+			closed = true
+			rigClose(a, b)
+			done := make(chan struct{})
+			go func() { readers.Wait(); close(done) }()
+			select {
+			case <-done:
+			case <-time.After(10 * time.Second):
+				run.Count("reader_goroutines_not_finished", 1)
+			}
 		}
-		sender, err := a.AddTrack(track)
-		if err != nil {
-			panic(err)
-		}
-		go func() { // keep the sender's RTCP (NACKs) flowing through the interceptors
-			buf := make([]byte, 1500)
-			for {
-				if _, _, e := sender.Read(buf); e != nil {
+		defer closeAll()
+
+		sendPC, recvPC := pcs[senderSide], pcs[1-senderSide]
+		for _, t := range tracks {
+			if senderSide == 1 {
+				if _, err = a.AddTransceiverFromKind(RTPCodecTypeVideo, RTPTransceiverInit{Direction: RTPTransceiverDirectionRecvonly}); err != nil {
+					run.Inconclusive("lossy:addtransceiver")
+
 					return
 				}
 			}
-		}()
-		var (
-			mu        sync.Mutex
-			bad       string
-			received  atomic.Int32
-			rtxSeen   atomic.Int32
-			trackSSRC atomic.Uint32
-		)
-		b.OnTrack(func(remote *TrackRemote, _ *RTPReceiver) {
+			if t.sender, err = sendPC.AddTrack(t.local); err != nil {
+				run.Inconclusive("lossy:addtrack")
+
+				return
+			}
+			sender := t.sender
+			go func() { // keep the sender's RTCP (NACKs) flowing through the interceptors
+				buf := make([]byte, 1500)
+				for {
+					if _, _, e := sender.Read(buf); e != nil {
+						return
+					}
+				}
+			}()
+		}
+		recvPC.OnTrack(func(remote *TrackRemote, _ *RTPReceiver) {
+			rec := &c23LossRemote{ssrc: uint32(remote.SSRC()), stream: remote.StreamID(), id: remote.ID()}
+			remMu.Lock()
+			remotes = append(remotes, rec)
+			remMu.Unlock()
+			readers.Add(1)
+			defer readers.Done()
 			for {
 				pkt, attrs, e := remote.ReadRTP()
 				if e != nil {
 					return
 				}
-				received.Add(1)
-				if attrs.Get(AttributeRtxSsrc) != nil {
+				viaRTX := attrs.Get(AttributeRtxSsrc) != nil
+				rec.mu.Lock()
+				rec.pkts = append(rec.pkts, c23LossPkt{p: pkt, rtx: viaRTX})
+				rec.mu.Unlock()
+				nRead.Add(1)
+				if viaRTX {
 					rtxSeen.Add(1)
-				}
-				want := c23Payload(0, pkt.SequenceNumber)
-				problem := ""
-				switch {
-				case pkt.SSRC != trackSSRC.Load():
-					problem = fmt.Sprintf("ssrc-mismatch: packet seq %d has SSRC %d, announced %d", pkt.SequenceNumber, pkt.SSRC, trackSSRC.Load())
-				case !bytes.Equal(pkt.Payload, want):
-					problem = fmt.Sprintf("payload-altered: packet seq %d (retransmission=%v): %d payload bytes differ from the %d written for that sequence number",
-						pkt.SequenceNumber, attrs.Get(AttributeRtxSsrc) != nil, len(pkt.Payload), len(want))
-				}
-				if problem != "" {
-					mu.Lock()
-					if bad == "" {
-						bad = problem
-					}
-					mu.Unlock()
 				}
 			}
 		})
-		if _, _, err = rigExchange(a, b, nil, nil); err != nil {
+		_, answer, err := rigExchange(a, b, nil, nil)
+		if err != nil {
 			run.Inconclusive("lossy:exchange")
 
 			return
@@ -154,57 +319,227 @@ func c23Lossy(run *kit.Run, base, n int) { //nolint:gocognit,cyclop
 
 			return
 		}
-		enc := sender.GetParameters().Encodings
-		if len(enc) == 0 || enc[0].RTX.SSRC == 0 {
-			run.Inconclusive("lossy:rtx-not-negotiated")
+
+		// ---- expectations from the descriptions (same reading as the loopback part)
+		senderSDP, e1 := kit.ParseSDP(sendPC.LocalDescription().SDP)
+		answerSDP, e2 := kit.ParseSDP(answer.SDP)
+		if e1 != nil || e2 != nil {
+			run.Inconclusive("lossy:description-unparsable")
 
 			return
 		}
-		ssrc := uint32(enc[0].SSRC)
-		trackSSRC.Store(ssrc)
-		first := uint16(r.Intn(60000))
-		burst := r.Range(2, 3) // neighbouring packets lost together
-		var dropped atomic.Int32
+		bySSRC := map[uint32]*c23LossTrack{}
+		for _, t := range tracks {
+			if why := c23Expect(t.c23Track, senderSDP, answerSDP); why != "" {
+				run.Inconclusive("lossy:precondition: " + why)
+
+				return
+			}
+			if !t.hasRTX {
+				run.Inconclusive("lossy:rtx-not-negotiated")
+
+				return
+			}
+			t.hdr = c23NewHdrCtx(c23SectionByMid(answerSDP, t.mid), t.mid, twccHdr)
+			bySSRC[t.ssrc] = t
+		}
+		var nDropped atomic.Int32
 		router.AddChunkFilter(func(c vnet.Chunk) bool {
 			h := &rtp.Header{}
-			if _, e := h.Unmarshal(c.UserData()); e != nil || h.SSRC != ssrc {
+			if _, e := h.Unmarshal(c.UserData()); e != nil {
 				return true
 			}
-			d := h.SequenceNumber - first
-			if d < 30 || int(d%10) < 10-burst {
+			t := bySSRC[h.SSRC]
+			if t == nil {
 				return true
 			}
-			dropped.Add(1)
+			d := int(h.SequenceNumber - t.seq0)
+			if d >= total || !t.drop[d] {
+				return true
+			}
+			if !t.dropped[d].Swap(true) {
+				nDropped.Add(1)
+			}
 
 			return false
 		})
-		const total = 400
+
+		// ---- traffic
+		ts := r.Uint32()
 		for s := 0; s < total; s++ {
-			seq := first + uint16(s)
-			_ = track.WriteRTP(&rtp.Packet{
-				Header:  rtp.Header{Version: 2, SequenceNumber: seq, Timestamp: uint32(s) * 3000, Marker: s%3 == 0},
-				Payload: c23Payload(0, seq),
-			})
+			for _, t := range tracks {
+				ts += uint32(r.Range(1, 4000))
+				pkt := &rtp.Packet{
+					Header: rtp.Header{
+						Version: 2, Marker: r.Bool(), PayloadType: uint8(r.Intn(128)), SequenceNumber: t.seq0 + uint16(s),
+						Timestamp: ts, SSRC: r.Uint32(),
+					},
+					Payload: append([]byte(nil), t.written[s]...),
+				}
+				t.classes[s], t.profiles[s] = c23ShapeHeader(r, t.shape, t.hdr, &pkt.Header)
+				if err := t.local.WriteRTP(pkt); err != nil {
+					run.Count("write_errors", 1)
+				}
+			}
 			time.Sleep(2 * time.Millisecond)
 		}
-		kit.Eventually(2*time.Second, func() bool { return rtxSeen.Load() >= dropped.Load()/2 })
-		mu.Lock()
-		problem := bad
-		mu.Unlock()
-		desc := fmt.Sprintf("lossy vp8 pair: burst=%d first=%d", burst, first)
-		run.Case(desc, rtxSeen.Load() >= 2)
-		run.Count("lossy_packets_dropped", int(dropped.Load()))
-		run.Count("lossy_retransmissions_verified", int(rtxSeen.Load()))
-		run.Count("lossy_packets_received", int(received.Load()))
-		if problem != "" {
-			sig := "payload-altered:retransmission-under-loss"
-			if len(problem) > 4 && problem[:4] == "ssrc" {
-				sig = "ssrc-mismatch:under-loss"
+		kit.Eventually(2*time.Second, func() bool { return rtxSeen.Load() >= nDropped.Load()/2 }) // not deciding
+		time.Sleep(20 * time.Millisecond)
+		closeAll()
+
+		// ---- evaluation
+		reported := map[string]bool{}
+		violation := func(sig, what string, extra map[string]any) {
+			if reported[sig] {
+				return
 			}
-			run.Violation(sig, desc+": "+problem, i, map[string]any{"case": desc, "dropped": dropped.Load(), "rtx_seen": rtxSeen.Load()})
+			reported[sig] = true
+			extra["configuration"] = desc
+			extra["first_transmissions_dropped"] = nDropped.Load()
+			extra["retransmissions_read"] = rtxSeen.Load()
+			extra["replay_hint"] = "descriptions are regenerated on replay (ssrc, ufrag differ); configuration, payloads, headers and loss pattern are identical"
+			run.Violation(sig, desc+": "+what, i, extra)
 		}
+		remMu.Lock()
+		final := append([]*c23LossRemote(nil), remotes...)
+		remMu.Unlock()
+		for _, rec := range final {
+			var t *c23LossTrack
+			for _, x := range tracks {
+				if x.ssrc == rec.ssrc || (t == nil && x.streamID == rec.stream && x.id == rec.id) {
+					t = x
+				}
+			}
+			if t == nil {
+				violation("ssrc-mismatch:under-loss", fmt.Sprintf("OnTrack delivered a TrackRemote with SSRC %d (msid %q %q) that the sender's description does not announce", rec.ssrc, rec.stream, rec.id),
+					map[string]any{"remote_ssrc": rec.ssrc})
+
+				continue
+			}
+			t.remotes++
+			rec.mu.Lock()
+			pkts := rec.pkts
+			rec.mu.Unlock()
+			for _, lp := range pkts {
+				c23LossJudge(run, tracks, t, lp, total, violation)
+			}
+		}
+
+		// ---- evidence
+		rtxVerified := 0
+		for _, t := range tracks {
+			if t.remotes == 0 {
+				run.Inconclusive("lossy:ontrack-not-fired")
+			}
+			for s := 0; s < total; s++ {
+				if t.viaRTX[s] > 0 {
+					rtxVerified++
+					run.Count("lossy_retransmissions_verified:"+t.classes[s], 1)
+					if t.profiles[s] != "" {
+						run.Seen("lossy_retransmitted_extension_profile", t.profiles[s])
+					}
+				}
+				if t.dropped[s].Load() {
+					if t.delivered[s] > 0 {
+						run.Count("lossy_dropped_then_delivered", 1)
+					} else {
+						run.Count("lossy_dropped_never_delivered", 1)
+					}
+				}
+			}
+			run.Seen("lossy_codec", t.codec.name)
+			run.Seen("lossy_header_shape", c23ShapeNames[t.shape])
+			run.Seen("lossy_loss_pattern", strings.SplitN(t.loss, "(", 2)[0])
+		}
+		run.Seen("lossy_sender_side", []string{"offerer", "answerer"}[senderSide])
+		run.Seen("lossy_tracks", fmt.Sprint(ntracks))
+		if twccHdr {
+			run.Count("lossy_cases_with_twcc_header_extension_sender", 1)
+		}
+		run.Case(desc, rtxSeen.Load() >= 2)
+		run.Count("lossy_packets_dropped", int(nDropped.Load()))
+		run.Count("lossy_retransmissions_verified", rtxVerified)
+		run.Count("lossy_retransmissions_read", int(rtxSeen.Load()))
+		run.Count("lossy_packets_received", int(nRead.Load()))
 		if rtxSeen.Load() == 0 {
 			run.Inconclusive("lossy:no-retransmission-observed")
 		}
 	})
+}
+
+// c23LossJudge judges one packet read from the TrackRemote of track t.
+func c23LossJudge(run *kit.Run, tracks []*c23LossTrack, t *c23LossTrack, lp c23LossPkt, total int,
+	violation func(sig, what string, extra map[string]any),
+) {
+	p := lp.p
+	path := "direct"
+	if lp.rtx {
+		path = "retransmission"
+	}
+	obs := map[string]any{
+		"path": path, "header_sequence_number": p.SequenceNumber, "header_ssrc": p.SSRC, "header_pt": p.PayloadType,
+		"header_class_read": c23HeaderClass(p.Extension, len(p.CSRC)), "payload_len": len(p.Payload),
+		"payload_head": kit.Hex(p.Payload[:min(len(p.Payload), 24)]), "track": t.String(), "first_sequence_number": t.seq0,
+		"announced_ssrc": t.ssrc, "announced_rtx_ssrc": t.rtxSSRC, "allowed_payload_types": c23PTList(t.allowedPT),
+	}
+	if p.SSRC != t.ssrc {
+		violation("ssrc-mismatch:under-loss", fmt.Sprintf("a packet (%s, seq %d) read from the TrackRemote has SSRC %d, the sender's description announces %d",
+			path, p.SequenceNumber, p.SSRC, t.ssrc), obs)
+	}
+	if !t.allowedPT[p.PayloadType] {
+		violation("payload-type-mismatch:under-loss:"+path, fmt.Sprintf("a packet (%s, seq %d) read from the TrackRemote has payload type %d; the applied answer maps %s to %v in mid %q",
+			path, p.SequenceNumber, p.PayloadType, t.codec.name, c23PTList(t.allowedPT), t.mid), obs)
+	}
+	d := int(p.SequenceNumber - t.seq0)
+	if d < total && bytes.Equal(p.Payload, t.written[d]) {
+		t.delivered[d]++
+		if lp.rtx {
+			t.viaRTX[d]++
+		}
+
+		return
+	}
+	// not the packet written under this sequence number: is it an intact written packet at all?
+	owner, m := (*c23LossTrack)(nil), -1
+	if len(p.Payload) >= 3 {
+		ke, ne := int(p.Payload[0]), int(binary.BigEndian.Uint16(p.Payload[1:3]))
+		if ke < len(tracks) && ne < total && bytes.Equal(p.Payload, tracks[ke].written[ne]) {
+			owner, m = tracks[ke], ne
+		}
+	} else {
+		for _, x := range append([]*c23LossTrack{t}, tracks...) {
+			for s := 0; s < total && owner == nil; s++ {
+				if bytes.Equal(p.Payload, x.written[s]) {
+					owner, m = x, s
+				}
+			}
+		}
+	}
+	seqWritten := "no packet was written to the track with this sequence number"
+	if d < total {
+		seqWritten = fmt.Sprintf("packet %d was written with this sequence number, with another payload (%d bytes)", d, len(t.written[d]))
+		obs["written_payload_head_for_sequence_number"] = kit.Hex(t.written[d][:min(len(t.written[d]), 24)])
+	}
+	switch {
+	case owner == t:
+		obs["written_packet"] = m
+		obs["written_sequence_number"] = t.seq0 + uint16(m)
+		obs["written_header_class"] = t.classes[m]
+		obs["written_extension_profile"] = t.profiles[m]
+		obs["first_transmission_dropped"] = t.dropped[m].Load()
+		// the header class in the signature is the one of the packet as read (what the receiving path had in its hands:
+		// an interceptor of the sender may have added an extension block to a packet written without one)
+		readClass := c23HeaderClass(p.Extension, len(p.CSRC))
+		violation("sequence-number-changed:"+path+":"+readClass,
+			fmt.Sprintf("packet %d (written with sequence number %d and a %s header) was read from the TrackRemote via the %s path with a %s header and its payload intact, but with sequence number %d: %s",
+				m, t.seq0+uint16(m), t.classes[m], path, readClass, p.SequenceNumber, seqWritten), obs)
+	case owner != nil:
+		obs["written_to"] = owner.String()
+		obs["written_packet"] = m
+		violation("misrouted-packet:under-loss:"+path, fmt.Sprintf("packet %d written to track #%d was read (%s) from the TrackRemote of track #%d", m, owner.idx, path, t.idx), obs)
+	default:
+		obs["observed_payload"] = kit.Hex(p.Payload)
+		violation("payload-altered:retransmission-under-loss",
+			fmt.Sprintf("a packet (%s, seq %d, %d payload bytes) read from the TrackRemote matches nothing that was written: %s", path, p.SequenceNumber, len(p.Payload), seqWritten), obs)
+	}
 }
